@@ -16,8 +16,26 @@ def isRtUse : Use → Bool
 /-- `P` holds of every pool of the runtime -/
 def AllPools (P : Pool → Prop) (s : Rt) : Prop := ∀ p ∈ s.pools, P p
 
+theorem mem_applyAt {f : Pool → Pool} {i : Nat} {l : List Pool} {x : Pool} (h : x ∈ applyAt f i l) :
+    x ∈ l ∨ ∃ y ∈ l, x = f y := by
+  induction l generalizing i with
+  | nil => simp [applyAt] at h
+  | cons p t ih =>
+    cases i with
+    | zero =>
+      rcases List.mem_cons.mp h with h | h
+      · exact Or.inr ⟨p, by simp, h⟩
+      · exact Or.inl (by simp [h])
+    | succ i =>
+      rcases List.mem_cons.mp (show x ∈ p :: applyAt f i t from h) with h | h
+      · exact Or.inl (by simp [h])
+      · rcases ih h with h | ⟨y, hy, hx⟩
+        · exact Or.inl (by simp [h])
+        · exact Or.inr ⟨y, by simp [hy], hx⟩
+
 section lift
 variable {P : Pool → Prop} (hinit : ∀ pid, P { pid := pid }) (huse : ∀ p u, isRtUse u = true → P p → P (ClonePool.use p u))
+  (hclr : ∀ p o, P p → P (clearFinalizer p o))
 include huse
 
 theorem AllPools.onCurrent {s : Rt} (h : AllPools P s) (u : Use) (hu : isRtUse u = true) (d : Nat) :
@@ -36,6 +54,43 @@ theorem AllPools.onCurrent {s : Rt} (h : AllPools P s) (u : Use) (hu : isRtUse u
     · exact h q (by rw [hl]; simp [hq])
     · exact h q (by simp [hq])
 
+include hclr
+theorem AllPools.markRt {s : Rt} (h : AllPools P s) (o : Obj) (f r : Bool) : AllPools P (markRt s o f r) := by
+  unfold GcRuntime.markRt
+  split
+  · exact h
+  · rename_i p rest hl
+    have hall : ∀ q ∈ p :: rest, P q := fun q hq => h q (by unfold Rt.pools; rw [hl]; exact List.mem_append_left _ hq)
+    have hdead : ∀ q ∈ s.dead, P q := fun q hq => h q (by unfold Rt.pools; exact List.mem_append_right _ hq)
+    -- every pool is the old one, possibly with o's Go finaliser cleared, possibly marked
+    have hclr' : ∀ (c : Bool) (q : Pool), P q → P (if c = true then clearFinalizer q o else q) := by
+      intro c q hq
+      cases c
+      · simpa using hq
+      · simpa using hclr q o hq
+    simp only
+    generalize wouldRegister ((p :: rest)[markingIdx rest o.key]?.getD p) o = c
+    generalize hl1 : List.map (fun q => if c = true then clearFinalizer q o else q) (p :: rest) = live1
+    generalize hd1 : List.map (fun q => if c = true then clearFinalizer q o else q) s.dead = dead1
+    have hlive1 : ∀ q ∈ live1, P q := by
+      intro q hq; rw [← hl1] at hq
+      obtain ⟨y, hy, rfl⟩ := List.mem_map.mp hq
+      exact hclr' c y (hall y hy)
+    have hdead1 : ∀ q ∈ dead1, P q := by
+      intro q hq; rw [← hd1] at hq
+      obtain ⟨y, hy, rfl⟩ := List.mem_map.mp hq
+      exact hclr' c y (hdead y hy)
+    split
+    · intro q hq; exact h q hq
+    · intro x hx
+      unfold Rt.pools at hx
+      simp only [List.mem_append] at hx
+      rcases hx with hx | hx
+      · rcases mem_applyAt hx with hx | ⟨y, hy, rfl⟩
+        · exact hlive1 x hx
+        · exact huse _ _ rfl (hlive1 y hy)
+      · exact hdead1 x hx
+
 include hinit
 theorem AllPools.prim {s : Rt} (h : AllPools P s) (e : Prim) : AllPools P (prim s e) := by
   unfold GcRuntime.prim
@@ -46,11 +101,7 @@ theorem AllPools.prim {s : Rt} (h : AllPools P s) (e : Prim) : AllPools P (prim 
       simp only
       split
       · exact h
-      · split
-        · exact h
-        · split
-          · intro q hq; exact h q hq
-          · exact h.onCurrent huse _ rfl _
+      · exact h.markRt huse hclr o f r
     | fire o =>
       intro q hq
       unfold AllPools Rt.pools at h
@@ -107,15 +158,15 @@ theorem AllPools.prim {s : Rt} (h : AllPools P s) (e : Prim) : AllPools P (prim 
 theorem AllPools.closeN {s : Rt} (h : AllPools P s) (n : Nat) : AllPools P (closeN n s) := by
   induction n generalizing s with
   | zero => exact h
-  | succ n ih => exact ih ((h.prim hinit huse _).prim hinit huse _)
+  | succ n ih => exact ih ((h.prim hinit huse hclr _).prim hinit huse hclr _)
 
 theorem AllPools.rstep {s : Rt} (h : AllPools P s) (e : REv) : AllPools P (rstep s e) := by
   cases e with
-  | prim e => exact h.prim hinit huse e
-  | pushCtx d => exact h.prim hinit huse _
-  | callDone => exact (h.prim hinit huse _).prim hinit huse _
-  | callKilled => exact h.prim hinit huse _
-  | close => exact h.closeN hinit huse _
+  | prim e => exact h.prim hinit huse hclr e
+  | pushCtx d => exact h.prim hinit huse hclr _
+  | callDone => exact (h.prim hinit huse hclr _).prim hinit huse hclr _
+  | callKilled => exact h.prim hinit huse hclr _
+  | close => exact h.closeN hinit huse hclr _
 
 theorem AllPools.run (es : List REv) : AllPools P (GcRuntime.run es) := by
   unfold GcRuntime.run
@@ -127,12 +178,13 @@ theorem AllPools.run (es : List REv) : AllPools P (GcRuntime.run es) := by
   generalize ({} : Rt) = s at h0
   induction es generalizing s with
   | nil => exact h0
-  | cons e t ih => exact ih _ (h0.rstep hinit huse e)
+  | cons e t ih => exact ih _ (h0.rstep hinit huse hclr e)
 
 end lift
 
 /-- the pool invariant holds for every pool of every reachable runtime state -/
 theorem rt_inv (es : List REv) : ∀ p ∈ (GcRuntime.run es).pools, Inv p :=
-  AllPools.run (P := Inv) Inv.init (fun _ u _ hi => hi.use u) es
+  AllPools.run (P := Inv) Inv.init (fun _ u _ hi => hi.use u)
+    (fun p o hi => Inv.congr (p := p) (q := clearFinalizer p o) rfl rfl rfl rfl rfl hi) es
 
 end GoluaVerif.Proofs.C18
